@@ -852,6 +852,70 @@ def check_bubbles(ctx, top):
                mod=DR, node=lp, sig="bubble-edges-" + flag)
 
 
+def check_bubble_guards(ctx, top):
+    """R20.9: in add_box, a port is joined to the box node unless the box opens / closes a bubble; then only the two marker wires (first and last port of the wide side) are"""
+    ab = inner(ctx, top, "add_box")
+    boxv = ab.args.args[1].arg
+    N = {boxv: "box"}
+    shape.match_stmts(ctx, "R20.9", DR + ".add_box:flags", [s for s in ab.body if isinstance(s, ast.Assign) and isinstance(s.targets[0], ast.Name) and s.targets[0].id in ("bubble_opening", "bubble_closing", "bubble")],
+                      ["bubble_opening = getattr(box, 'bubble_opening', False)", "bubble_closing = getattr(box, 'bubble_closing', False)", "bubble = bubble_opening or bubble_closing"], N, mod=DR, node=ab,
+                      sig="bubble-flags", exact=True, required="an ordinary box has neither flag; a box is a bubble border when it has one of them")
+    for side, flag, spec_edge in (("dom", "bubble_closing", "graph.add_edge(wire, node)"), ("cod", "bubble_opening", "graph.add_edge(node, wire)")):
+        lp = next((s for s in ab.body if isinstance(s, ast.For) and ast.unparse(s.iter) == "enumerate(%s.%s)" % (boxv, side)), None)
+        ctx.need(lp is not None and isinstance(lp.target, ast.Tuple), "add_box has no loop over box.%s" % side)
+        g = next((s for s in lp.body if isinstance(s, ast.If)), None)
+        ctx.need(g is not None, "add_box: the %s ports are joined to the box node unconditionally" % side)
+        N2 = dict(N)
+        N2[lp.target.elts[0].id] = "i"
+        shape.match(ctx, "R20.9", "%s.add_box:%s-port-joined" % (DR, side), g.test, "not bubble or %s and i in [0, len(box.%s) - 1]" % (flag, side), N2, mod=DR, node=g, sig="bubble-guard-" + side,
+                    required="every port of an ordinary box; of a bubble border only the first and last port of its wide side (the marker wires)")
+        shape.match_stmts(ctx, "R20.9", "%s.add_box:%s-port-edge" % (DR, side), g.body, [spec_edge], N2, mod=DR, node=g, sig="bubble-edge-" + side, exact=True, required="the edge points downwards: %s" % spec_edge)
+
+
+def check_diagramize_guards(ctx):
+    """R20.8: the function-call syntax refuses only what is ill-typed, classifies the nodes it reads back by their kind and hands the factories on"""
+    m = ctx.model
+    nx2 = m.func(DR + ".nx2diagram")
+    dz = m.func(DR + ".diagramize")
+    apply = inner(ctx, dz, "apply")
+    dec = inner(ctx, dz, "decorator")
+    lp = next((s for s in nx2.body if isinstance(s, ast.For) and ast.unparse(s.iter) == "graph.nodes"), None)
+    ctx.need(lp is not None and isinstance(lp.target, ast.Name), "nx2diagram does not classify the nodes of the graph")
+    shape.match_stmts(ctx, "R20.8", DR + ".nx2diagram:kinds", lp.body, ["for kind, nodelist in zip(['input', 'output', 'box'], [inputs, outputs, boxes]):\n    if node.kind == kind:\n        nodelist.append(node)"],
+                      {lp.target.id: "node"}, mod=DR, node=lp, sig="nx-kinds", exact=True, required="input, output and box nodes are collected in the order of graph.nodes, each in the list of its kind")
+    st0 = shape.values_of(nx2.body, ["scan", "diagram"])
+    shape.match(ctx, "R20.8", DR + ".nx2diagram:start", st0, ["(inputs, _id(_ty(*[node.obj for node in inputs])))", "(inputs, id_factory(ob_factory(*[node.obj for node in inputs])))"], {}, mod=DR, node=nx2, sig="nx-start",
+                required="the row starts as the input nodes, the diagram as the identity on their objects")
+    shape.match(ctx, "R20.8", DR + ".nx2diagram:result", next((s.value for s in nx2.body if isinstance(s, ast.Return)), None), "diagram", {}, mod=DR, node=nx2, sig="nx-result")
+    # refusals of apply / decorator: exactly the ill-typed uses
+    N = {apply.args.args[0].arg: "box", apply.args.vararg.arg: "inputs"}
+    il = next((s for s in apply.body if isinstance(s, ast.For) and ast.unparse(s.iter) == "enumerate(%s.dom)" % apply.args.args[0].arg), None)
+    ctx.need(il is not None and isinstance(il.target, ast.Tuple), "apply has no loop over the inputs of the box")
+    N2 = dict(N)
+    N2.update({il.target.elts[0].id: "i", il.target.elts[1].id: "obj"})
+    g = next((s for s in il.body if isinstance(s, ast.If) and isinstance(s.body[-1], ast.Raise)), None)
+    shape.match(ctx, "R20.8", DR + ".diagramize.apply:input-type", g.test if g is not None else None, ["inputs[i].obj != obj", "obj != inputs[i].obj"], N2, mod=DR, node=g or il, sig="apply-input-type",
+                required="a wire of another type than the box expects there is refused (and only that)")
+    ol = next((s for s in dec.body if isinstance(s, ast.For) and ast.unparse(s.iter) == "enumerate(cod)"), None)
+    ctx.need(ol is not None and isinstance(ol.target, ast.Tuple), "diagramize has no loop over the declared outputs")
+    NO = {ol.target.elts[0].id: "i", ol.target.elts[1].id: "obj"}
+    g = next((s for s in ol.body if isinstance(s, ast.If) and isinstance(s.body[-1], ast.Raise)), None)
+    shape.match(ctx, "R20.8", DR + ".diagramize:output-type", g.test if g is not None else None, ["outputs[i].obj != obj", "obj != outputs[i].obj"], NO, mod=DR, node=g or ol, sig="diagramize-output-type",
+                required="a returned wire of another type than declared is refused (and only that)")
+    shape.match_stmts(ctx, "R20.8", DR + ".diagramize.apply:depth", [s for s in apply.body if isinstance(s, (ast.Assign, ast.Expr)) and not (isinstance(s, ast.Expr) and isinstance(s.value, ast.Constant))],
+                      ["depth = len(box_nodes)", "box_node = Node('box', box=box, depth=depth, offset=offset)", "box_nodes.append(box_node)", "graph.add_node(box_node)"], N, mod=DR, node=apply, sig="apply-depth",
+                      required="every application gets the next depth (the number of boxes applied so far) and is recorded, so that the nodes of different applications never share a key")
+    res = next((s for s in dec.body if isinstance(s, ast.Assign) and isinstance(s.value, ast.Call) and ast.unparse(s.value.func) == "nx2diagram"), None)
+    shape.match(ctx, "R20.8", DR + ".diagramize:rebuild", res.value if res is not None else None, ["nx2diagram(graph, ob_factory=type(dom), id_factory=id_factory)", "nx2diagram(graph, type(dom), id_factory)",
+                                                                                                   "nx2diagram(graph, ob_factory=type(cod), id_factory=id_factory)"], {}, mod=DR, node=res or dec, sig="diagramize-rebuild",
+                required="the graph is read back with the type class of the declared domain and the identity factory")
+    idf = next((s for s in dz.body if isinstance(s, ast.Assign) and ast.unparse(s.targets[0]) == "id_factory"), None)
+    shape.match(ctx, "R20.8", DR + ".diagramize:id-factory", idf.value if idf is not None else None, ["id_factory or boxes[0].id", "boxes[0].id if id_factory is None else id_factory"], {}, mod=DR, node=idf or dz,
+                sig="diagramize-id-factory", required="the identity factory given, else that of the first box")
+    outs = next((s for s in dec.body if isinstance(s, ast.Assign) and ast.unparse(s.targets[0]) == "outputs"), None)
+    shape.match(ctx, "R20.8", DR + ".diagramize:call", outs.value if outs is not None else None, "tuplify(func(*inputs))", {}, mod=DR, node=outs or dec, sig="diagramize-call", required="the function body is run on the input nodes, in order")
+
+
 def check(ctx):
     ctx.rule("R20.1", "census: one input / output node per wire of dom / cod, one box node per layer, one dom / cod node per port, with distinct keys")
     ctx.rule("R20.2", "edges reproduce the wiring; the row of open wires is spliced at [off, off+|dom|) with the cod nodes in order")
@@ -870,8 +934,10 @@ def check(ctx):
     check_node_keys(ctx)
     check_backends(ctx)
     check_diagramize(ctx)
+    check_diagramize_guards(ctx)
     ctx.rule("R20.9", "bubbles: opening / closing boxes typed against the inside, straight-wire flags only when the lengths on that side agree, index-shifted edges in add_box")
     check_bubbles(ctx, top)
+    check_bubble_guards(ctx, top)
     ctx.floor("R20.9", 9)
     ctx.floor("R20.1", 5)
     ctx.floor("R20.2", 7)
